@@ -23,6 +23,8 @@ from vf.engine import dbshim
 from vf.engine.vloop import VLoop
 
 BASE_T = 1_700_000_000.0
+# wall-clock correction a scenario may apply while it runs (NTP step, VM resume): the wall clock is BASE_T + OFFSET[0] + loop time
+OFFSET = [0.0]
 _ORIG_DATETIME = _dt.datetime
 _ORIG_TIME = _time.time
 
@@ -44,20 +46,20 @@ class VDatetime(_ORIG_DATETIME):
         if loop is None:
             return _ORIG_DATETIME.now(tz)
         if tz is None:
-            return _ORIG_DATETIME.fromtimestamp(BASE_T + loop.time())
-        return _ORIG_DATETIME.fromtimestamp(BASE_T + loop.time(), tz)
+            return _ORIG_DATETIME.fromtimestamp(BASE_T + OFFSET[0] + loop.time())
+        return _ORIG_DATETIME.fromtimestamp(BASE_T + OFFSET[0] + loop.time(), tz)
 
     @classmethod
     def utcnow(cls) -> Any:  # type: ignore[override]
         loop = _vloop()
         if loop is None:
             return _ORIG_DATETIME.utcnow()
-        return _ORIG_DATETIME.fromtimestamp(BASE_T + loop.time(), _dt.UTC).replace(tzinfo=None)
+        return _ORIG_DATETIME.fromtimestamp(BASE_T + OFFSET[0] + loop.time(), _dt.UTC).replace(tzinfo=None)
 
 
 def vtime() -> float:
     loop = _vloop()
-    return _ORIG_TIME() if loop is None else BASE_T + loop.time()
+    return _ORIG_TIME() if loop is None else BASE_T + OFFSET[0] + loop.time()
 
 
 class _Proxy(types.ModuleType):
